@@ -180,12 +180,8 @@ Fixpoint eval (p : prog) (e : expr) {struct e} : res val :=
   end.
 
 Definition update_time (p : prog) (ns : N) : res unit :=
-  match cadd two64 "program.rs update_time overflow" (p_now p) ns with
-  | Ok t => ROk tt (set_now p t)
-  | Err e => RErr e p
-  | Panic s => RPanic s p
-  | OutOfFuel => RPanic "out of fuel" p
-  end.
+  (* checked_add(..).ok_or(RuntimeError) *)
+  if p_now p + ns <? two64 then ROk tt (set_now p (p_now p + ns)) else RErr ERuntime p.
 
 Fixpoint advance_all (p : prog) (ps : list packet) : res unit :=
   match ps with
